@@ -163,6 +163,11 @@ def api_pat(p, conv):
     if 'x' in p:
         return conv(p['x'])
     if 'c' in p:
+        if p.get('o'):
+            # the same source and flags, compiled in the string type the object does not use
+            if isinstance(conv('a'), bytes):
+                return re.compile(p['re'], p['c'])
+            return re.compile(p['re'].encode('ascii'), p['c'])
         return re.compile(conv(p['re']), p['c'])
     return conv(p['re'])
 
